@@ -6,6 +6,9 @@ _BT = "real functions executed on a z3-backed CasADi model; emitted NLP vs. orac
 CHECKS = {
     "C01": dict(category="other", technique="sidecar contracts + self-generated VCs (z3) on the real functions; bounded structure", text="gap-closing rows equal the RK4/Euler/discrete oracle with uninterpreted dynamics for all numeric values; structure (N,M,dims) enumerated", note="assumes model/casadi (A-CASADI, A-OPTI), floats as reals"),
     "C02": dict(category="other", technique=_BT, text="collocation defect/algebraic/continuity rows equal the Lagrange oracle for degree 1..5 x radau/legendre", note="assumes model/casadi, floats as reals"),
+    "C04": dict(category="other", technique=_BT, text="multiset of emitted rows = placement oracle (every grid, include_first/last, offsets, scales); nothing else emitted; unplaceable grid rejected", note="assumes model/casadi"),
+    "C05": dict(category="other", technique=_BT, text="objective handed to Opti = sum of declared terms of every kind", note="assumes model/casadi"),
+    "C06": dict(category="other", technique=_BT, text="control/integrator grids equal the declared partition; coupling rows are equivalent to it incl. min/max", note="assumes model/casadi; irrational geometric growth factors within 1e-9"),
     "C09": dict(category="other", technique=_BT, text="parameters of every kind reach exactly the rows/objective of their interval", note="assumes model/casadi"),
     "C11": dict(category="other", technique=_BT, text="free/fixed/parametric horizon give the same oracle rows plus T>=0", note="assumes model/casadi"),
     "C14": dict(category="other", technique=_BT, text="rows with symbolic positive scales equal oracle rows divided by scale", note="assumes model/casadi"),
@@ -14,5 +17,5 @@ NOT_APPLICABLE = {
     "C18": "save/load is pickle + CasADi's serializer; no contract on rockit code can express it (DESIGN.md section 8)",
     "C19": "both sides of the equation are NLP-solver runs (DESIGN.md section 8)",
 }
-for _p in ("C03", "C04", "C05", "C06", "C07", "C08", "C10", "C12", "C13", "C15", "C16", "C17", "C20"):
+for _p in ("C03", "C07", "C08", "C10", "C12", "C13", "C15", "C16", "C17", "C20"):
     NOT_APPLICABLE[_p] = "check under construction in this session (will be claimed once it is green on the unchanged tree)"
